@@ -62,6 +62,11 @@ struct Shm
   // the verdict comes from the instance counter, not from a sanitizer); the first `natural_left`
   // such cases run on, so that what the sanitizer says about them is on record
   volatile int natural_left;
+  // natural deaths of the process that were classified as a named deviation whose expectation is
+  // "nothing observable changes, the process may die": once two were seen, later steps of that
+  // kind are not executed any more (the behaviour is truncated there, as after any deviating step)
+  volatile int dev_crashes;
+  volatile long skipped_known_crash;
   // counters
   volatile long behaviours, steps, checks, instances, truncated_alt, truncated_dev, findings;
   volatile long alt_counts[8];
